@@ -145,6 +145,27 @@ def run(tier, seed, opens):
                     fail('cosigners derive different addresses', {'m': m, 'n': n, 'witness_type': wt}, sorted(map(str, addrs)), 'one address')
                 else:
                     ok += 1
+                # the dictionary hand-off carries signatures as 64-byte r||s strings: none may be lost on import, whatever its bytes look like
+                # (an r that starts with 0x30 looks like the first byte of a DER signature)
+                cases += 1
+                try:
+                    w0 = wallets[0]
+                    u = w0.utxos()[0]
+                    t = w0.transaction_create([(dest, u['value'] - 50000)], [(u['txid'], u['output_n'], u['key_id'], u['value'])], fee=50000)
+                    t.sign()
+                    d = t.as_dict()
+                    crafted = '30' + '11' * 31 + '00' * 31 + '01'
+                    d['inputs'][0]['signatures'] = [crafted]
+                    t2 = wallets[1 % n].transaction_import(d)
+                    got = [sg.hex() if hasattr(sg, 'hex') else str(sg) for sg in t2.inputs[0].signatures]
+                    if len(got) != 1 or got[0][:128] != crafted:
+                        fail('dict hand-off of a signature whose r starts with 0x30', {'m': m, 'n': n, 'witness_type': wt, 'signature': crafted},
+                             'imported input holds %d signature(s): %s' % (len(got), [g[:16] for g in got]), 'the one signature that was handed over')
+                    else:
+                        ok += 1
+                except Exception as e:
+                    fail('dict hand-off of a signature whose r starts with 0x30', {'m': m, 'n': n, 'witness_type': wt},
+                         'raised %s: %s' % (type(e).__name__, str(e)[:160]), 'no exception')
                 for order in itertools.permutations(range(n), m):
                     for rep in ('object', 'dict', 'raw'):
                         cases += 1
